@@ -32,16 +32,25 @@ def analyze(items, user_terms, data_value=None):
     lits = []
     walk_strings(data, lits)
     occ = []
+    escaped_occ = []
     for s, ctx in lits:
-        for it in s.items:
+        for idx, it in enumerate(s.items):
             if is_sym(it) and it.get_id() in ids:
                 occ.append((it, ctx, s))
+                escaped_occ.append(idx in s.escaped)
     in_strings = {t.get_id() for t, _, _ in occ}
     # user characters that the reader met outside string literals would have raised ReadError; characters that do
     # not appear at all were dropped by the generator
     missing = [t for t in user_terms if t.get_id() not in in_strings]
     bad, beyond = False, False
-    for t, ctx, s in occ:
+    for (t, ctx, s), was_escaped in zip(occ, escaped_occ):
+        if was_escaped:
+            # written after a backslash: data exactly when it is a double quote or a backslash (anything else is another escape
+            # or a read error); a tilde still starts a directive in a template
+            wrong = b_or(b_not(b_or(t == 34, t == 92)), (t == 126) if ctx == "format-template" else False)
+            bad = b_or(bad, wrong)
+            beyond = b_or(beyond, wrong)
+            continue
         special = b_or(t == 34, t == 92, (t == 126) if ctx == "format-template" else False)
         meant = data_value.get(t.get_id(), t)
         meant_special = b_or(meant == 34, meant == 92, (meant == 126) if ctx == "format-template" else False)
